@@ -87,6 +87,41 @@ Section C09.
     eapply validate_proposal_addresses; eassumption.
   Qed.
 
+  (* C09_partial: C09_full with "the key recorded in the node's group" replaced by what the code
+     really uses - the key the APPLIED TERMS list for the sender's address - plus the address tie
+     to the group for proposals (spelled out: addresses, not keys) *)
+  Theorem C09_partial : forall now s p s' o f g md,
+    inv s -> finished s = Some f -> st_final_group f = Some g ->
+    pkstep now s p = (s', o) -> s' <> s -> gp_md p = Some md ->
+    exists next signer, current s' = Some next
+      /\ find_by_addr (st_remaining next ++ st_joining next) (md_addr md) = Some signer
+      /\ verify (p_key signer) (message_for_signing (md_beacon md) (gp_body p) (terms_from_state next)) (md_sig md) = true
+      /\ (forall t, gp_body p = PProposal t -> effective B s = f -> t_epoch t <> 1 ->
+            contains_all (g_nodes g) (t_remaining t ++ t_leaving t) = true
+            /\ contains_all (t_remaining t ++ t_leaving t) (g_nodes g) = true)
+      /\ ((forall t, gp_body p <> PProposal t) ->
+            st_remaining next = st_remaining (effective B s) /\ st_joining next = st_joining (effective B s)).
+  Proof.
+    intros now s p s' o f g md I F G H N Hmd. unfold ppacket_step in H.
+    destruct (signed_by_named _ _ _ _ _ _ _ _ _ _ H N) as (md' & next & signer & Hmd' & C & Fd & K & V & R).
+    rewrite Hmd in Hmd'; inversion Hmd'; subst md'.
+    exists next, signer. repeat split; auto.
+    - destruct (packet_accept_inv _ _ _ _ _ _ _ _ _ _ H N) as (md2 & next2 & _ & _ & A & _ & _ & _).
+      rewrite H0, H1 in A. simpl in A. destruct (proposed_inv _ _ _ _ _ _ _ A) as [VP _].
+      destruct I as [I1 _]. destruct (I1 f F) as [S _].
+      eapply validate_proposal_addresses; try eassumption. rewrite S; discriminate.
+    - destruct (packet_accept_inv _ _ _ _ _ _ _ _ _ _ H N) as (md2 & next2 & _ & _ & A & _ & _ & _).
+      rewrite H0, H1 in A. simpl in A. destruct (proposed_inv _ _ _ _ _ _ _ A) as [VP _].
+      destruct I as [I1 _]. destruct (I1 f F) as [S _].
+      eapply validate_proposal_addresses; try eassumption. rewrite S; discriminate.
+    - destruct (packet_accept_inv _ _ _ _ _ _ _ _ _ _ H N) as (md2 & next2 & _ & _ & A & _ & C2 & _).
+      assert (next2 = next) by congruence. subst next2.
+      eapply non_proposal_keeps_lists; eassumption.
+    - destruct (packet_accept_inv _ _ _ _ _ _ _ _ _ _ H N) as (md2 & next2 & _ & _ & A & _ & C2 & _).
+      assert (next2 = next) by congruence. subst next2.
+      eapply non_proposal_keeps_lists; eassumption.
+  Qed.
+
   Theorem C09_partial_stored_keys : forall now s p s' o,
     pkstep now s p = (s', o) -> s' <> s -> (forall t, gp_body p <> PProposal t) ->
     exists next, current s' = Some next
@@ -102,6 +137,7 @@ Print Assumptions C09_signed_by_named.
 Print Assumptions C09_terms_covered.
 Print Assumptions C09_unsigned_fields.
 Print Assumptions C09_fresh_caveat.
+Print Assumptions C09_partial.
 Print Assumptions C09_partial_addresses.
 Print Assumptions C09_partial_stored_keys.
 
